@@ -13,7 +13,7 @@ theorem bestUpd_eq (lt : π → π → Bool) (best : Option (Prog × π)) (prog 
       | some b => if lt pr b.2 = true then some (prog, pr) else some b) = bestUpd lt best prog pr := by
   cases best <;> rfl
 
-theorem initArgs_total (H : OHyp E rank Good) {B r : Nat} (Lw : Low E rank r B) :
+theorem initArgs_total (H : OHyp E rank Good) {B r D : Nat} (Lw : Low E rank r B D) :
     ∀ (v : List (UNT U)) (acc : List Prog) (n : Nat) (s : St U π), B + v.length + 1 ≤ n → Base E s → CacheC s →
       OPre E rank (.initArgs v acc) s → (∀ a ∈ v, rank a < r) → (∀ a ∈ v, ∃ rs, AList.lookup a E.G.rules = some rs) →
       ∃ res, initArgs E n s v acc = some res
@@ -37,7 +37,7 @@ theorem initArgs_total (H : OHyp E rank Good) {B r : Nat} (Lw : Low E rank r B) 
         exact Nat.le_max_right _ _
       have hipre : OPre E rank (.initNT si) s := ⟨hpre'.mono (Nat.le_of_lt hrk'), hpre' si hrk', fun _ => hdel⟩
       obtain ⟨s1, hs1⟩ := Lw.initNT si (hrk si List.mem_cons_self) (hrows si List.mem_cons_self) n s
-        (by simp at hn; omega) hbase hc hipre
+        (by simp at hn; omega) hbase hc (by rw [hdel]; simp) hipre
       have hi' := (big_of_run E n).2.2.2.2.1 _ _ _ hs1
       obtain ⟨hbase1, hst1, hfr1, _, _, hkept1⟩ := big_all H hi' hbase trivial trivial
       have hfr1' : Frame rank (rank si) (some si) s s1 := hfr1
@@ -68,8 +68,8 @@ theorem altPrio_total (H : OHyp E rank Good) {s s1 : St U π} {nt : UNT U} {P : 
     intro i ai si hai hsi
     exact hc1 si ai (Popped.seen hb1.sinv ⟨none, hpop i ai si hai hsi⟩))
 
-theorem initAlts_total (H : OHyp E rank Good) {L Al A : Nat} (T : THyp E L Al A) {B : Nat} {nt : UNT U}
-    (Lw : Low E rank (rank nt) B) (P : Sym) :
+theorem initAlts_total (H : OHyp E rank Good) {L Al A : Nat} (T : THyp E L Al A) {B D : Nat} {nt : UNT U}
+    (Lw : Low E rank (rank nt) B D) (P : Sym) :
     ∀ (alts : List (List (UNT U) × Rat)) (best : Option (Prog × π)) (n : Nat) (s : St U π), B + alts.length + A + 2 ≤ n →
       Base E s → CacheC s → SPre E (.initAlts nt P alts best) → OPre E rank (.initAlts nt P alts best) s →
       ∃ res, initAlts E n s nt P alts best = some res
@@ -115,8 +115,8 @@ theorem initAlts_total (H : OHyp E rank Good) {L Al A : Nat} (T : THyp E L Al A)
             ⟨fun vw hvw => hspre.1 vw (List.mem_cons_of_mem _ hvw), bestUpd_der E nt best _ pr hspre.2 r4⟩ ⟨r2, r3, hdel4⟩
         exact key _ (by cases best <;> rfl)
 
-theorem initRules_total (H : OHyp E rank Good) {L Al A : Nat} (T : THyp E L Al A) {B : Nat} {nt : UNT U}
-    (Lw : Low E rank (rank nt) B) (hAl : ∀ x, x ∈ (AList.lookup nt E.G.rules).getD [] → x.2.length ≤ Al) :
+theorem initRules_total (H : OHyp E rank Good) {L Al A : Nat} (T : THyp E L Al A) {B D : Nat} {nt : UNT U}
+    (Lw : Low E rank (rank nt) B D) (hAl : ∀ x, x ∈ (AList.lookup nt E.G.rules).getD [] → x.2.length ≤ Al) :
     ∀ (rs : List (Sym × List (List (UNT U) × Rat))) (best : Option (Prog × π)) (n : Nat) (s : St U π),
       (∀ x, x ∈ rs → x ∈ (AList.lookup nt E.G.rules).getD []) → B + rs.length + Al + A + 3 ≤ n →
       Base E s → CacheC s → SPre E (.initRules nt rs best) → OPre E rank (.initRules nt rs best) s →
@@ -151,8 +151,8 @@ theorem foldl_push_ne_nil {α : Type} (lt : α → α → Bool) (x : α) (l : Li
   rw [h] at this
   simp at this
 
-theorem initNT_total (H : OHyp E rank Good) (hnf : ∀ p, E.filter p = true) {L Al A : Nat} (T : THyp E L Al A) {B : Nat} {nt : UNT U}
-    (Lw : Low E rank (rank nt) B) (n : Nat) (s : St U π) (hn : B + L + Al + A + 5 ≤ n) (hbase : Base E s) (hc : CacheC s)
+theorem initNT_total (H : OHyp E rank Good) {L Al A : Nat} (T : THyp E L Al A) {B D : Nat} {nt : UNT U}
+    (Lw : Low E rank (rank nt) B D) (n : Nat) (s : St U π) (hn : B + L + Al + A + 5 + D ≤ n) (hbase : Base E s) (hc : CacheC s)
     (hpre : OPre E rank (.initNT nt) s) (hrow : ∃ rs, AList.lookup nt E.G.rules = some rs) :
     ∃ s', initNT E n s nt = some s' := by
   have hk := H.ghyp.kway
@@ -165,12 +165,12 @@ theorem initNT_total (H : OHyp E rank Good) (hnf : ∀ p, E.filter p = true) {L 
     · simp only [hinit, Bool.false_eq_true, if_false]
       obtain ⟨rs, hrs⟩ := hrow
       simp only [hrs]
-      obtain ⟨h1, h2, _⟩ := hpre
-      have hdel : s.deleted = [] := hbase.nodel hnf
+      obtain ⟨h1, h2, h4⟩ := hpre
       have hu : Uninit s nt := by
         rcases h2 with hu | hf
         · exact hu
         · exact absurd hf.1.init hinit
+      have hdel : s.deleted = [] := h4 hu.2.2.1
       have hbase0 : Base E { s with initS := s.initS ++ [nt] } :=
         ⟨⟨hbase.sinv.cache_ok, hbase.sinv.heap_prio, hbase.sinv.heap_seen, hbase.sinv.seen_der, hbase.sinv.succ_seen,
           hbase.sinv.keys_ok, hbase.sinv.maxNT_ok, hbase.sinv.maxRule_ok, hbase.sinv.start_ok⟩,
@@ -233,30 +233,35 @@ theorem initNT_total (H : OHyp E rank Good) (hnf : ∀ p, E.filter p = true) {L 
       have hs3' : initPush E { s1 with maxNT := AList.insert nt b.1 s1.maxNT } nt
           (rs.flatMap fun r => r.2.map fun vw => (r.1, vw.1)) = some s3 := hs3
       simp only [hs3']
-      obtain ⟨hbase3, hn3, ho3, hst3, _⟩ := ntinv_after_initPush H a2 hph hs3 hbase2 (mem_flatOf_of_alts hrs)
+      obtain ⟨hbase3, hn3, ho3, hst3, hdel3⟩ := ntinv_after_initPush H a2 hph hs3 hbase2 (mem_flatOf_of_alts hrs)
+      have hdel3' : s3.deleted = [] := by
+        rw [hdel3]
+        show s1.deleted = []
+        rw [big_deleted E hr hk]; exact hdel
       have hbel3 : Below E rank (rank nt) s3 := a1.only ho3 hst3 (Nat.le_refl _)
       have hc3 := (CacheC.initPush E hk nt _ hc2 hs3).1
-      obtain ⟨res, hres⟩ := queryInited_total H hnf T Lw n s3 none (by omega) hbase3 hc3 hn3.1.init
-        ⟨hbel3, Or.inr hn3, (by intro k hk'; cases hk'), fun _ => hbase3.nodel hnf⟩
+      obtain ⟨res, hres⟩ := queryInited_total H T Lw n s3 none (by omega) hbase3 hc3 (by rw [hdel3']; simp) hn3.1.init
+        ⟨hbel3, Or.inr hn3, (by intro k hk'; cases hk'), fun _ => hdel3'⟩
       rw [hres]
       exact ⟨_, rfl⟩
 
-theorem Low.mono {B r r' : Nat} (h : Low E rank r B) (hr : r' ≤ r) : Low E rank r' B :=
+theorem Low.mono {B D r r' : Nat} (h : Low E rank r B D) (hr : r' ≤ r) : Low E rank r' B D :=
   ⟨fun si hsi => h.query si (by omega), fun si hsi => h.initNT si (by omega)⟩
 
-/-- **every `query` and every `__init_non_terminal__` returns** with fuel (rank + 1) · (L + Al + A + 6) -/
-theorem low_all (H : OHyp E rank Good) (hnf : ∀ p, E.filter p = true) {L Al A : Nat} (T : THyp E L Al A) :
-    ∀ r, Low E rank r (r * (L + Al + A + 6)) := by
+/-- **every `query` and every `__init_non_terminal__` returns** with fuel (rank + 1) · (L + Al + A + 6 + D), `D` a bound
+    of the number of rejected programs (`D = 0` without filter) -/
+theorem low_all (H : OHyp E rank Good) {L Al A : Nat} (T : THyp E L Al A) (D : Nat) :
+    ∀ r, Low E rank r (r * (L + Al + A + 6 + D)) D := by
   intro r
   induction r with
   | zero => exact ⟨fun si hsi => by omega, fun si hsi => by omega⟩
   | succ r ih =>
-    have hmul : (r + 1) * (L + Al + A + 6) = r * (L + Al + A + 6) + (L + Al + A + 6) := Nat.succ_mul _ _
+    have hmul : (r + 1) * (L + Al + A + 6 + D) = r * (L + Al + A + 6 + D) + (L + Al + A + 6 + D) := Nat.succ_mul _ _
     refine ⟨?_, ?_⟩
-    · intro si hsi hrow n s p hn hbase hc hpre
-      have Lw : Low E rank (rank si) (r * (L + Al + A + 6)) := ih.mono (by omega)
+    · intro si hsi hrow n s p hn hbase hc hD hpre
+      have Lw : Low E rank (rank si) (r * (L + Al + A + 6 + D)) D := ih.mono (by omega)
       by_cases hinit : s.initS.contains si = true
-      · exact queryInited_total H hnf T Lw n s p (by omega) hbase hc hinit hpre
+      · exact queryInited_total H T Lw n s p (by omega) hbase hc hD hinit hpre
       · cases n with
         | zero => omega
         | succ n =>
@@ -266,21 +271,22 @@ theorem low_all (H : OHyp E rank Good) (hnf : ∀ p, E.filter p = true) {L Al A 
             · exact hu
             · exact absurd hn2.1.init hinit
           have hipre : OPre E rank (.initNT si) s := ⟨h1, Or.inl hu, h4⟩
-          obtain ⟨s1, hs1⟩ := initNT_total H hnf T Lw n s (by omega) hbase hc hipre hrow
+          obtain ⟨s1, hs1⟩ := initNT_total H T Lw n s (by omega) hbase hc hipre hrow
           have hi' := (big_of_run E n).2.2.2.2.1 _ _ _ hs1
           obtain ⟨hbase1, hst1, _, _, _, _⟩ := big_all H hi' hbase trivial trivial
           obtain ⟨a1, a2⟩ := big_order H hi' hbase trivial trivial hipre
           have hc1 := (big_cacheC E H.ghyp.kway hi' hc).1
+          have hD1 : s1.deleted.length ≤ D := by rw [big_deleted E hi' H.ghyp.kway]; exact hD
           unfold query
           simp only [hinit, Bool.false_eq_true, if_false, hs1]
           cases hl : AList.lookup p (s1.succOf si) with
           | some q => exact ⟨_, rfl⟩
           | none =>
             simp only
-            exact popLoop_total H hnf T Lw n s1 p (by omega) hbase1 hc1 hl
+            exact popLoop_total H T Lw D n s1 p (Nat.le_trans (undone_le s1 si) hD1) (by omega) hbase1 hc1 hD1 hl
               ⟨a1, ⟨a2.1, a2.2.2⟩, fun k hk' => (h3 k hk').mono hst1, fun e0 => absurd e0 a2.2.1⟩
-    · intro si hsi hrow n s hn hbase hc hpre
-      have Lw : Low E rank (rank si) (r * (L + Al + A + 6)) := ih.mono (by omega)
-      exact initNT_total H hnf T Lw n s (by omega) hbase hc hpre hrow
+    · intro si hsi hrow n s hn hbase hc _ hpre
+      have Lw : Low E rank (rank si) (r * (L + Al + A + 6 + D)) D := ih.mono (by omega)
+      exact initNT_total H T Lw n s (by omega) hbase hc hpre hrow
 
 end PS.UHS
